@@ -135,17 +135,32 @@ def rule_c_end_planes(ctx, fn):
     multiplicative) is zeroed after its last modification - on every path, for every combination of inputs."""
     cfg = CFG(fn)
     outs = [p for p in fn.params if "RelatedViewgrams" in p["t"] and p["t"].rstrip().endswith("&") and not p["t"].startswith("const")]
-    z = fn.param("zero_seg0_end_planes")
-    if not outs or z is None:
-        ctx.unrec(fn.qn, "expected by-reference RelatedViewgrams outputs and a zero_seg0_end_planes parameter")
+    # the zeroing flag is found from the code, not by its name: the bool parameter that is known to be true at every
+    # zero_end_sinograms call
+    bools = {"v%d" % p["d"]: p for p in fn.params if p["t"].replace("const ", "").strip() in ("bool", "_Bool")}
+    zcalls = [c for c in fn.calls() if c.callee == "stir::zero_end_sinograms"]
+    if not outs or not bools:
+        ctx.unrec(fn.qn, "expected by-reference RelatedViewgrams outputs and a bool end-plane flag parameter")
         return
-    zkey = "v%d" % z["d"]
-    segkeys = {key(n) for n in fn.walk() if n.k == "BinaryOperator" and n.op == "==" and "segment_num()" in key(n, True) and key(n.c[1].strip()) == "0"}
+    if not zcalls:
+        for i, p in enumerate(outs):
+            ctx.ob("C05.c-end-planes-zeroed-uniformly", fn.qn, "output#%d" % i, False, fn.where(), "get_viewgrams never calls zero_end_sinograms: %s is returned without end-plane zeroing" % p["n"])
+        return
+    cand = None
+    for c in zcalls:
+        here = {k for k, tv, _r in cfg.facts_at(c) if tv is True and k in bools}
+        cand = here if cand is None else (cand & here)
+    if not cand or len(cand) != 1:
+        ctx.unrec(fn.qn, "cannot identify the end-plane flag: bool parameters true at every zero_end_sinograms call = %s" % sorted(cand or []))
+        return
+    zkey = cand.pop()
+    z = bools[zkey]
+    segkeys = {key(n) for n in fn.walk() if n.k == "BinaryOperator" and n.op == "==" and key(n.c[0].strip()).endswith(".segment_num()") and key(n.c[1].strip()) == "0"}
     if len(segkeys) != 1:
         ctx.unrec(fn.qn, "expected exactly one form of the test segment_num() == 0, found %s" % sorted(segkeys))
         return
     skey = segkeys.pop()
-    ghosts = ["ghost:zeroed:" + p["n"] for p in outs]
+    ghosts = ["ghost:zeroed:%d" % i for i, p in enumerate(outs)]
     roots_ = {"v%d" % p["d"]: i for i, p in enumerate(outs)}
     ex = Explorer(cfg, [zkey, skey] + ghosts)
     from engine.tree import written_lvalues, root_of_lvalue
@@ -176,7 +191,7 @@ def rule_c_end_planes(ctx, fn):
         ctx.ob(
             "C05.c-end-planes-zeroed-uniformly",
             fn.qn,
-            "output:" + p["n"],
+            "output#%d" % i,
             not bad and bool(exits),
             fn.where(),
             "on every path with zero_seg0_end_planes and segment 0, zero_end_sinograms(%s) follows the last modification of %s (%d exit states)" % (p["n"], p["n"], len(exits))
